@@ -32,7 +32,7 @@ PROPS = {
                 "named operand state / pair), operands re-read after every call, pre-filled Union maps, and the cli/vata.cc naming flow (dictionaries, -s/-p pruning, "
                 "CreateUnionStringToStateMap/CreateProductStringToStateMap, named dump). Non-trivial: both languages non-empty and the product non-empty, or "
                 "overlapping state numbers with a non-empty union. Distinct: hash of the canonical case text.",
-        "assumptions": COMMON_ASSUMPTIONS + ["Intersection*/Union maps are passed empty except in the documented [in,out] pre-filled Union variant"],
+        "assumptions": COMMON_ASSUMPTIONS + ["pre-filled maps: Union with one pre-filled entry (documented [in,out]); Intersection/IntersectionBU with the complete map of a previous call on the same operands (dense values, so new pairs cannot collide); arbitrary pre-filled numbers that collide with the numbers the routines allocate are outside the domain"],
     },
     "C03": {
         "harness": "c03",
